@@ -477,10 +477,12 @@ func genBurndownCase(r *rand.Rand, mode int, malformed bool) (string, input) {
 // ---------------------------------------------------------------------------------------------
 // common
 
+var itemPool = []string{"Burndown", "Devs", "Couples", "TreeDiff"}
+
 func genCommonCase(r *rand.Rand) (string, input) {
 	in := input{an: "common"}
 	in.c1, in.c2 = genCommonPair(r)
-	keys := []string{"Burndown", "Devs", "Couples", "TreeDiff"}
+	keys := itemPool
 	for _, c := range []*Common{&in.c1, &in.c2} {
 		c.Items = []string{}
 		for _, k := range keys {
@@ -593,9 +595,14 @@ func generate(c *Config) {
 		chainFamily(c)
 		return
 	}
+	if only == "r4" {
+		contentFamily(c)
+		return
+	}
 	exhaustive(c)
 	scaleFamily(c)
 	chainFamily(c)
+	contentFamily(c)
 	for i := c.Count(4000, 120000); i > 0; i-- {
 		k, in := genDevsCase(r, i%3, false)
 		emit(c, k, in)
